@@ -508,6 +508,20 @@ Proof.
     + rewrite lookup_insert_neq by (exact E || exact Hab). exact La.
 Qed.
 
+Lemma canary_always_works :
+  forall evs h, evs_fresh [] [] evs -> run hub_init evs = HOk h ->
+    exists ua ur, HInv h ua ur /\
+    forall a b t bid_a bid_b cap msg,
+      a <> b -> ~ In a ua -> ~ In b ua -> ~ In a ur -> ~ In b ur -> members_of t h = [] -> (1 <= cap)%nat ->
+      exists h', run h [WsAdd bid_a a; Register a t cap; WsAdd bid_b b; Register b t cap; Broadcast a msg] = HOk h' /\
+                 clk b (clients h') = Some (mkclient t cap [msg] true) /\
+                 clk a (clients h') = Some (mkclient t cap [] true).
+Proof.
+  intros evs h F R. destruct (run_ok evs hub_init [] [] hinv_init F) as [h1 [ua [ur [R1 [HI _]]]]].
+  rewrite R in R1. inversion R1; subst h1. exists ua, ur. split; [exact HI|].
+  intros a b t bid_a bid_b cap msg. exact (canary_works h ua ur a b t bid_a bid_b cap msg HI).
+Qed.
+
 (* ---- histories of the access API ---- *)
 Lemma evs_fresh_app a : forall ua ur b,
   evs_fresh ua ur (a ++ b) <->
